@@ -1,6 +1,25 @@
 (* C10 *)
 let pr_ostr = pr_opt pr_str
+let pr_c10_dataset d =
+  pr_list pr_str d.d_features; pr_list pr_str d.d_spectrum; pr_list pr_str d.d_metadata;
+  pr_list pr_str d.d_levels; pr_str d.d_target; pr_str d.d_peptide; pr_str d.d_protein;
+  pr_str d.d_specid; pr_str d.d_scan; pr_ostr d.d_filename; pr_ostr d.d_calcmass;
+  pr_ostr d.d_expmass; pr_ostr d.d_rt; pr_ostr d.d_charge;
+  pr_list (pr_list pr_z) d.d_spectra_rows; pr_list pr_bool d.d_targets
 let () =
+  (* the row chunks of the missing-value scan: empty_chunk, row-chunk size, column-chunk size, columns,
+     options, label-is-bool, rows as (cells, missing bits) *)
+  reg "c10.read_rc" (fun () ->
+      let ec = rd_bool () in
+      let cr = rd_nat () in
+      let cc = rd_nat () in
+      let cols = rd_list rd_str () in
+      let o1 = rd_opt rd_str () in let o2 = rd_opt rd_str () in let o3 = rd_opt rd_str () in
+      let o4 = rd_opt rd_str () in let o5 = rd_opt rd_str () in
+      let lb = rd_bool () in
+      let rowsm = rd_list (rd_pair (rd_list rd_z) (rd_list rd_bool)) () in
+      let o = { o_filename = o1; o_calcmass = o2; o_expmass = o3; o_rt = o4; o_charge = o5 } in
+      pr_result pr_c10_dataset (pc_read_rc ec cr cc cols o lb rowsm));
   reg "c10.read" (fun () ->
       let cs = rd_nat () in
       let cols = rd_list rd_str () in
